@@ -379,6 +379,7 @@ func (x *Exec) atReturn(s *State, f *ssa.Function, fc, fieldC *FuncContract, arg
 		fr.loopHeads = lf.loopHeads // at(L, e) in an ensures clause: the last iteration of L on this path
 		fr.loopHeadNames = lf.loopHeadNames
 		fr.ranCond = lf.ranCond
+		fr.callArgs = lf.callArgs
 	}
 	s.frames = append(s.frames, fr)
 	defer func() { s.frames = s.frames[:len(s.frames)-1] }()
